@@ -698,7 +698,8 @@ class KlongInterpreter():
                         fn, var_syms = compiled
                         try:
                             args = [self._context[s] for s in var_syms]
-                            return fn(*args)
+                            if self._compiled_for(args):
+                                return fn(*args)
                         except Exception:
                             pass
                 f = self._get_op_fn(x.a.a, x.a.arity)
@@ -716,7 +717,8 @@ class KlongInterpreter():
                     fn, var_syms = compiled
                     try:
                         args = [self._context[s] for s in var_syms]
-                        return fn(*args)
+                        if self._compiled_for(args):
+                            return fn(*args)
                     except Exception:
                         pass
                 return chain_adverbs(self, x.a)()
@@ -732,6 +734,14 @@ class KlongInterpreter():
         elif isinstance(x,list) and len(x) > 0:
             return [self.call(y) for y in x][-1]
         return x
+
+    def _compiled_for(self, args):
+        """
+        Compiled code is only valid for the kinds of value it was admitted for (compile_expr): a variable that has since
+        been bound to something else - a string, a NumPy scalar - goes through the interpreter.
+        """
+        nd = self._backend.np.ndarray
+        return all(type(a) is int or type(a) is float or isinstance(a, nd) for a in args)
 
     def __call__(self, x):
         """
@@ -758,7 +768,8 @@ class KlongInterpreter():
                 fn, var_syms = compiled
                 try:
                     args = [self._context[s] for s in var_syms]
-                    return fn(*args)
+                    if self._compiled_for(args):
+                        return fn(*args)
                 except Exception:
                     pass  # fall through to interpreter
 
